@@ -17,7 +17,7 @@ edge_betweenness_wei) and the matrix-power routine betweenness_bin:
 """
 import ast
 
-from ..core.astutil import norm, ParentMap
+from ..core.astutil import norm, ParentMap, same_up_to_reordering
 from ..core.cfg import CFG
 from ..core.loader import walk_no_nested
 from ..core.pattern import Matcher
@@ -84,8 +84,14 @@ def _brandes(prog, rep, f, kind, edges):
         b = m.match(s, '$Q[$P] = $V')
         blk = pm.block_of[s][2]
         i = pm.block_of[s][3]
-        if i + 1 < len(blk) and m.match(blk[i + 1], '%s -= 1' % norm(b['P'])):
-            fill = (s, norm(b['Q']), norm(b['P']), norm(b['V']))
+        qn, pn = norm(b['Q']), norm(b['P'])
+        later = blk[i + 1:]
+        dec = [x for x in later if m.match(x, '%s -= 1' % pn)]
+        if len(dec) == 1:
+            between = later[:later.index(dec[0])]
+            touched = any(isinstance(n, ast.Name) and n.id in (qn, pn) for x in between for n in ast.walk(x))
+            if not touched:
+                fill = (s, qn, pn, norm(b['V']))
     rep.ob('Q.descending-fill', f, fill[0] if fill else 'Q[q] = v; q -= 1', fill is not None, 'settled nodes must be recorded from the end of the order array downwards', line=loop.lineno)
     if fill is None:
         return feats
@@ -255,8 +261,7 @@ def _bin(prog, rep):
     fw = [s for s in stmts if isinstance(s, ast.While) and m.match(s.test, 'np.any(NSPd)')]
     okw = False
     if fw:
-        b = [norm(s) for s in fw[0].body]
-        okw = b == ['d += 1', 'NPd = np.dot(NPd, G)', 'NSPd = NPd * (L == 0)', 'NSP += NSPd', 'L = L + d * (NSPd != 0)']
+        okw = same_up_to_reordering(fw[0].body, ['d += 1', 'NPd = np.dot(NPd, G)', 'NSPd = NPd * (L == 0)', 'NSP += NSPd', 'L = L + d * (NSPd != 0)'])
     rep.ob('B.forward-counting', f, fw[0].test if fw else 'while np.any(NSPd)', okw, 'walk counts of length d restricted to pairs not yet reached give the shortest-path counts and lengths', line=f.node.lineno)
     for r in cfg.returns:
         rep.ob('B.betweenness-is-column-sum', f, r, m.match(r.value, 'np.sum(DP, axis=0)') is not None, 'node betweenness is the dependency summed over sources')
